@@ -15,6 +15,7 @@
 package ctfe
 
 import (
+	"bytes"
 	"context"
 	"crypto/sha256"
 	"fmt"
@@ -171,14 +172,23 @@ func (s *indirectIssuanceChainService) FixLogLeaf(ctx context.Context, leaf *tri
 func (s *indirectIssuanceChainService) getByHash(ctx context.Context, hash []byte) ([]byte, error) {
 	// Return if found in cache.
 	chain, err := s.cache.Get(ctx, hash)
-	if chain != nil || err != nil {
-		return chain, err
+	if err != nil {
+		return nil, err
+	}
+	if chain != nil {
+		if !bytes.Equal(issuanceChainHash(chain), hash) {
+			return nil, fmt.Errorf("cached issuance chain does not match hash %x", hash)
+		}
+		return chain, nil
 	}
 
 	// Find in storage if cache miss.
 	chain, err = s.storage.FindByKey(ctx, hash)
 	if err != nil {
 		return nil, err
+	}
+	if !bytes.Equal(issuanceChainHash(chain), hash) {
+		return nil, fmt.Errorf("stored issuance chain does not match hash %x", hash)
 	}
 
 	// If there is any error from cache set, do not return the error because
